@@ -45,7 +45,10 @@ func main() {
 
 	// we leave the message field blank, which will inherit the stdlib timeout page which is sufficient
 	// and better than other naive messages we would currently place here
-	timeoutHandler := http.TimeoutHandler(authMux, config.ServerConfig.TimeoutConfig.Request, "")
+	// the timeout page is written by the TimeoutHandler itself, outside the authenticator's own
+	// middleware, so the security headers are (also) set around it
+	timeoutHandler := auth.SetSecurityHeaders(
+		http.TimeoutHandler(authMux, config.ServerConfig.TimeoutConfig.Request, ""))
 
 	s := &http.Server{
 		Addr:         fmt.Sprintf(":%d", config.ServerConfig.Port),
